@@ -61,7 +61,7 @@ enum {
     OP_FD_OPEN, OP_FD_WRITE, OP_FD_CLOSE, OP_FD_REG, OP_FD_DEREG, OP_TMR_REG, OP_TMR_DEREG, OP_SGN_REG, OP_SGN_DEREG, OP_RAISE,
     OP_PATH_REG, OP_PATH_DEREG, OP_TOUCH, OP_PID_REG, OP_PID_DEREG, OP_CHILD_SPAWN, OP_CHILD_KILL, OP_TASK_REG, OP_TASK_DEREG,
     OP_THRESH_REG, OP_THRESH_DEREG, OP_SRCLEN, OP_MSTATS, OP_LOOKUP, OP_EVT_RETAIN, OP_EVT_RELEASE, OP_EVT_CHECK, OP_MOD_REF, OP_MOD_UNREF,
-    OP_SLEEP, OP_ERRNO, OP_QUIESCE, OP_MOD_LOG, OP_MOD_DUMP, OP_NAMEOF, OP_FD_HUP, OP_OBS_DROP_KEEP, OP_BIND, OP_MAX
+    OP_SLEEP, OP_ERRNO, OP_QUIESCE, OP_MOD_LOG, OP_MOD_DUMP, OP_NAMEOF, OP_FD_HUP, OP_OBS_DROP_KEEP, OP_BIND, OP_SIG_UNMASK, OP_MAX
 };
 static const char *opnames[OP_MAX] = {
     "none", "ctx_register", "ctx_deregister", "ctx_loop", "ctx_dispatch", "ctx_dispatch_until", "ctx_quit", "ctx_finalize",
@@ -71,7 +71,7 @@ static const char *opnames[OP_MAX] = {
     "fd_open", "fd_write", "fd_close", "fd_reg", "fd_dereg", "tmr_reg", "tmr_dereg", "sgn_reg", "sgn_dereg", "raise",
     "path_reg", "path_dereg", "touch", "pid_reg", "pid_dereg", "child_spawn", "child_kill", "task_reg", "task_dereg",
     "thresh_reg", "thresh_dereg", "srclen", "mstats", "lookup", "evt_retain", "evt_release", "evt_check", "mod_ref", "mod_unref",
-    "sleep", "errno", "quiesce", "mod_log", "mod_dump", "nameof", "fd_hup", "obs_drop_keep_handle", "bind",
+    "sleep", "errno", "quiesce", "mod_log", "mod_dump", "nameof", "fd_hup", "obs_drop_keep_handle", "bind", "sig_unmask",
 };
 
 typedef struct { int op; long long a[6]; int na; } op_t;
@@ -550,6 +550,9 @@ static long long do_op(op_t *o) {
     case OP_SGN_REG: { m_src_sgn_t g = { (unsigned)a[1] }; ret = m_mod_src_register_sgn(H(a[0]), &g, (m_src_flags)a[2], ud_ptr(a[3], a[2] & ~M_SRC_AUTOFREE)); break; }
     case OP_SGN_DEREG: { m_src_sgn_t g = { (unsigned)a[1] }; ret = m_mod_src_deregister_sgn(H(a[0]), &g); break; }
     case OP_RAISE: ret = kill(getpid(), (int)a[0]); break;
+    case OP_SIG_UNMASK: {   /* undo the harness's start-up blocking of its test signals in the calling (context) thread: threads created from now on inherit an open mask, like in an ordinary program */
+        sigset_t m; sigemptyset(&m); sigaddset(&m, SIGUSR1); sigaddset(&m, SIGUSR2); for (int sg = SIGRTMIN; sg < SIGRTMIN + 6; sg++) sigaddset(&m, sg);
+        ret = pthread_sigmask(SIG_UNBLOCK, &m, NULL); break; }
     case OP_PATH_REG: { m_src_path_t p = { paths[a[1]], (unsigned)a[4] }; ret = m_mod_src_register_path(H(a[0]), &p, (m_src_flags)a[2], ud_ptr(a[3], a[2] & ~M_SRC_AUTOFREE)); break; }
     case OP_PATH_DEREG: { m_src_path_t p = { paths[a[1]], 0 }; ret = m_mod_src_deregister_path(H(a[0]), &p); break; }
     case OP_TOUCH: { char f[200]; static int ctr; snprintf(f, sizeof(f), "%s/f%d", paths[a[0]], ctr++); in_harness_io++; int fd = open(f, O_CREAT | O_WRONLY, 0600); if (fd >= 0) __real_close(fd); in_harness_io--; ret = fd >= 0 ? 0 : -errno; break; }
